@@ -82,4 +82,28 @@ PROPS = {
         "trusted_base": COMMON_TB + ["handler skeletons and rotation in the reference storage are hand-modelled; tied by this stream"],
         "assumptions": [],
     },
+    "C17": {
+        "proof_module": "OidcModel.Proofs.C17",
+        "theorems": ["C17.c17_callback_holds", "C17.c17_login_holds", "C17.c17_state_bound", "C17.c17_no_request_without_state",
+                     "C17.c17_pkce_bound", "C17.c17_auth_url_params", "C17.c17_history", "C17.checkCookie_spec"],
+        "cases": {"quick": 3000, "thorough": 200000},
+        "rule": "real rp.AuthURLHandler / rp.CodeExchangeHandler with real gorilla/securecookie and x/oauth2 against a fake token endpoint (httptest) that records "
+                "what it is sent; RP configurations: 3 hash keys x 3 block keys (incl. none), PKCE on/off, JWT-profile signer none/working/failing, custom URL "
+                "parameters, 4 scope lists, 3 redirect URIs, auth style in params / header, cookie max-age. (a) single callbacks over explicit jars: state cookie and "
+                "pkce cookie each valid / missing / minted under another hash key, block key or both / minted by the RP for another cookie name / the RP's other "
+                "cookie replayed under this name / truncated / one character flipped / junk / empty / other content / empty content / duplicated (junk first, valid "
+                "first), shuffled, with unrelated cookies, x query shapes (state matching, differing, absent, empty, duplicated, POST body overriding or carrying the "
+                "state, provider error, no code), provider accepting or refusing; (b) browser histories of 3-8 (thorough 3-11) events: login attempts, sequential or "
+                "2-4 OVERLAPPING under an explicit schedule driven through the stateFn / URLParamOpt call-backs of the one shared handler instance, jar tampering "
+                "without the RP's keys (drop, plant junk, toss cookies of a real login at another RP, rename, swap, truncate, reorder, duplicate), callbacks for issued / "
+                "never issued states; a state too long for securecookie (3%). Cookie values are classified with securecookie itself (27 key/name combinations), "
+                "verifiers and challenges are symbolised (v#n, S256(v#n)); non-trivial = not the modal class; distinct = class x input",
+        "trivial_class": r"login:seq:redirect",
+        "trusted_base": COMMON_TB + ["gorilla/securecookie is symbolic (a value verifies only under the key pair and cookie name it was minted for); cookie expiry is not modelled",
+                                     "x/oauth2 (AuthCodeURL, Exchange), net/http cookie and form parsing are hand-modelled after their source (Model/RP.lean Hand.*) and taken as oracle; tied by this stream",
+                                     "handler-internal interleavings are abstracted to atomic handler runs: justified by the translator's ownership check on appended slices and sampled by the scheduled overlapping attempts"],
+        "assumptions": ["custom URL parameters of the application do not use the keys state / client_id / redirect_uri / scope (NoReserved)",
+                        "cookie handler configured with max-age >= 0",
+                        "whoever tampers with the browser's jar does not hold the RP's cookie keys (Dolev-Yao); cookies the RP minted for OTHER browsers are outside the statement"],
+    },
 }
